@@ -24,7 +24,8 @@ CLAIM = {
             "Node::check_onchain_tx returns Ok only after Ok(validate_onchain_tx) and fee_velocity insert == true "
             "(with C12); (R8.3) unchecked_sign_onchain_tx is called only after a successful check_onchain_tx / approved "
             "handle_proposed_onchain, which turns every error kind other than UnknownDestinations into Err; (R8.4) "
-            "Wallet::can_spend refuses an empty path and compares with the three derived script types. Does not decide "
+            "Wallet::can_spend refuses an empty path and compares with the three derived script types; (R8.5) the feerate "
+            "compared with max_feerate_per_kw was not narrowed by a truncating integer cast. Does not decide "
             "the arithmetic inequality over arbitrary amounts.",
     "note": "non-permissive policy; is_tx_non_malleable / estimate_feerate_per_kw / Address::* trusted by name",
     "technique": "static analysis: loop-iteration path rules (at-most-once credit, credit-or-unknown) + must-pass-through + guard scenarios",
@@ -38,6 +39,7 @@ def run(ctx):
     r82(ctx)
     r83(ctx)
     r84(ctx)
+    r85(ctx)
 
 
 def _updates(fv, b, var):
@@ -351,3 +353,14 @@ def r84(ctx):
             if v == "true":
                 ctx.ob("R8.4", fv.must_pass(r["block"], eq), f"{b.name}/true-needs-match", "can_spend returns true without a script match",
                        where=f"{b.file}:{r['line']}", sample="Ok(true) dominated by a script equality")
+
+
+def r85(ctx):
+    ctx.rule("R8.5", "the fee-rate bound of an on-chain spend is compared on an untruncated value (no narrowing integer cast "
+                     "between the non-beneficial value and the comparison with max_feerate_per_kw)")
+    p = ctx.prog
+    n = 0
+    for fn in (f"{SVT}::validate_beneficial_value",):
+        b = p.fn(fn)
+        n += R.bound_comparisons_untruncated(ctx, "R8.5", b, lambda s: "SimplePolicy." in s or "policy." in s, b.name)
+    ctx.floor("R8.5", "comparisons with max_feerate_per_kw in validate_beneficial_value", n, 1)
